@@ -1,6 +1,7 @@
 package main
 
 import (
+	"fmt"
 	"math/rand"
 	"sync"
 	"sync/atomic"
@@ -58,6 +59,29 @@ type inversion struct {
 	SendTick   int64  // send tick of the overtaken message
 	AfterSend  int64  // send tick of the overtaking message
 	RecvTick   int64  // logical clock when the overtaken message was finally delivered
+	GotOp      string // operation and addressing of the overtaken message
+	AfterOp    string // ... of the overtaking one
+	GotPad     uint32 // payload padding of the overtaken message
+	AfterPad   uint32 // ... of the overtaking one
+}
+
+// operation kinds and addressing modes of a scripted step
+const (
+	kSend = iota
+	kCall
+	kImportant
+	kExit
+)
+const (
+	aPID = iota
+	aName
+	aAlias
+)
+
+func opName(kind uint32) string {
+	k := []string{"Send", "Call", "SendImportant", "SendExit"}[kind&15]
+	a := []string{"pid", "name", "alias"}[(kind>>4)&15]
+	return k + "/" + a
 }
 
 type pair struct {
@@ -65,6 +89,8 @@ type pair struct {
 	last     uint32 // highest sequence number delivered so far
 	lastEp   uint32
 	lastSend int64
+	lastKind uint32
+	lastPad  uint32
 	got      int
 	// recv ticks of the two most recently delivered in-order messages (for the in-flight overlap measure)
 	rt1, rt2   int64 // rt1: of message `last`, rt2: of message `last-1`
@@ -73,6 +99,13 @@ type pair struct {
 	invN       int
 	dupN       int
 	inv        []inversion
+	overlap1   int    // messages m(i+1) whose send began before m(i) was delivered
+	invOps     int    // inversions between two different operations (Send / Call / SendImportant)
+	invAddr    int    // inversions between two different addressing modes (pid / name / alias)
+	invLarge   int    // inversions in which a frame > 4 KiB overtook a smaller one
+	exitEarly  int    // exit signals that reached the mailbox before earlier messages of the pair
+	exitWit    string //
+	invAddr0   uint32 // addressing mode of the first overtaken message
 	maxGotEp   uint32 // largest pool epoch of an overtaken message
 	minAfterEp uint32 // smallest pool epoch of an overtaking message
 }
@@ -83,6 +116,8 @@ type receiver struct {
 	res  int // pid.ID % 255
 	side byte
 	name gen.Atom // registered name
+
+	alias gen.Alias // created by the receiver in Init
 
 	mu    sync.Mutex
 	cur   uint32
@@ -96,18 +131,77 @@ type recvActor struct {
 
 func (a *recvActor) Init(args ...any) error {
 	a.r.pid = a.PID()
+	a.SetTrapExit(true) // an exit signal arrives as a gen.MessageExitPID message instead of terminating the receiver
 	return nil
 }
 
-func (a *recvActor) HandleMessage(from gen.PID, message any) error {
-	m, ok := message.(M)
-	if !ok {
-		return nil
+// mkAlias asks a receiver to create its alias (not allowed during Init)
+type mkAlias struct{ done chan error }
+
+func (a *recvActor) HandleCall(from gen.PID, ref gen.Ref, request any) (any, error) {
+	if m, ok := request.(M); ok {
+		a.onMsg(m)
 	}
+	return true, nil
+}
+
+func (a *recvActor) HandleMessage(from gen.PID, message any) error {
+	switch m := message.(type) {
+	case mkAlias:
+		al, err := a.CreateAlias()
+		a.r.alias = al
+		m.done <- err
+	case M:
+		a.onMsg(m)
+	case gen.MessageExitPID:
+		a.onExit(m)
+	}
+	return nil
+}
+
+// onExit: the sender put "c13x <run> <sender> <n>" into the reason: the exit signal is the n-th
+// operation of the pair. It travels through the urgent mailbox queue, so it may be handled before
+// earlier messages are; but when it is handled, every earlier message of the pair must have
+// reached the mailbox already: handled so far + waiting in the main queue >= n-1. Only asserted
+// for isolated pairs (nobody else writes to this mailbox).
+func (a *recvActor) onExit(x gen.MessageExitPID) {
+	var c, s, n uint32
+	if x.Reason == nil {
+		return
+	}
+	if _, err := fmt.Sscanf(x.Reason.Error(), "c13x %d %d %d", &c, &s, &n); err != nil {
+		return
+	}
+	rn := curRun.Load()
+	if rn == nil || c != rn.id {
+		staleMsg.Add(1)
+		return
+	}
+	waiting := a.Mailbox().Main.Len()
+	r := a.r
+	r.mu.Lock()
+	if r.cur != c {
+		r.cur = c
+		r.pairs = map[uint32]*pair{}
+	}
+	p := r.pairs[s]
+	if p == nil {
+		p = &pair{s: s, minAfterEp: ^uint32(0)}
+		r.pairs[s] = p
+	}
+	if int64(p.got)+waiting < int64(n-1) {
+		p.exitEarly++
+		p.exitWit = fmt.Sprintf("exit signal sent as operation #%d of the pair was in the mailbox when only %d earlier messages had been handled and %d were waiting", n, p.got, waiting)
+	}
+	r.mu.Unlock()
+	rn.recvd.Add(1)
+}
+
+func (a *recvActor) onMsg(m M) {
 	rn := curRun.Load()
 	if rn == nil || m.Case != rn.id {
 		staleMsg.Add(1)
-		return nil
+		return
 	}
 	t := hk.Tick()
 	r := a.r
@@ -129,13 +223,16 @@ func (a *recvActor) HandleMessage(from gen.PID, message any) error {
 			// before that: m(N-2) and m(N-1) were in flight at the same time
 			p.overlap++
 		}
+		if m.N == p.last+1 && p.n1 == m.N-1 && m.Tick < p.rt1 {
+			p.overlap1++
+		}
 		if m.N == p.last+1 {
 			p.n2, p.rt2 = p.n1, p.rt1
 		} else {
 			p.n2, p.rt2 = 0, 0
 		}
 		p.n1, p.rt1 = m.N, t
-		p.last, p.lastEp, p.lastSend = m.N, m.Epoch, m.Tick
+		p.last, p.lastEp, p.lastSend, p.lastKind, p.lastPad = m.N, m.Epoch, m.Tick, m.Kind, m.Pad
 	case m.N == p.last:
 		p.dupN++
 	default:
@@ -146,14 +243,25 @@ func (a *recvActor) HandleMessage(from gen.PID, message any) error {
 		if p.lastEp < p.minAfterEp {
 			p.minAfterEp = p.lastEp
 		}
+		if p.invN == 1 {
+			p.invAddr0 = (m.Kind >> 4) & 15
+		}
+		if m.Kind&15 != p.lastKind&15 {
+			p.invOps++
+		}
+		if (m.Kind>>4)&15 != (p.lastKind>>4)&15 {
+			p.invAddr++
+		}
+		if p.lastPad > 3900 && m.Pad < p.lastPad {
+			p.invLarge++
+		}
 		if len(p.inv) < 3 {
 			p.inv = append(p.inv, inversion{S: m.S, R: r.idx, Got: m.N, After: p.last, GotEpoch: m.Epoch, AfterEpoch: p.lastEp,
-				SendTick: m.Tick, AfterSend: p.lastSend, RecvTick: t})
+				SendTick: m.Tick, AfterSend: p.lastSend, RecvTick: t, GotOp: opName(m.Kind), AfterOp: opName(p.lastKind), GotPad: m.Pad, AfterPad: p.lastPad})
 		}
 	}
 	r.mu.Unlock()
 	rn.recvd.Add(1)
-	return nil
 }
 
 // snapshot returns the pairs of run id
@@ -175,9 +283,18 @@ func (r *receiver) snapshot(id uint32) []*pair {
 // senders
 
 type target struct {
-	PID  gen.PID
-	R    uint32
-	Name gen.Atom
+	PID   gen.PID
+	R     uint32
+	Name  gen.Atom
+	Alias gen.Alias
+}
+
+// step is one scripted operation of a stream
+type step struct {
+	Kind    uint8 // kSend, kCall, kImportant, kExit
+	Addr    uint8 // aPID, aName, aAlias
+	Pad     uint32
+	SleepUS uint32
 }
 
 // streamCmd tells a sender process to send, from inside its own callback, N
@@ -196,8 +313,14 @@ type streamCmd struct {
 	GapEvery     int  // after every GapEvery rounds ...
 	GapUS        int  // ... pause that long (stretches the stream over pool changes)
 	ByName       bool // address the receivers by registered name (gen.ProcessID) instead of by pid
-	Seed         int64
-	Done         *sync.WaitGroup
+	// Script, if set, replaces N and the random size / stall options: round i performs Script[i]
+	// for every target (operation kind, addressing mode, payload size, decode stall)
+	Script []step
+	// TargetMajor: all rounds for the first target, then all for the second, ... (consecutive
+	// messages of one pair are then written back to back)
+	TargetMajor bool
+	Seed        int64
+	Done        *sync.WaitGroup
 }
 
 type sender struct {
@@ -217,9 +340,20 @@ func (s *sender) hooks() *actors.Hooks {
 			}
 			defer c.Done.Done()
 			rng := rand.New(rand.NewSource(c.Seed*1000003 + int64(s.idx)))
-			for round := 0; round < c.N; round++ {
-				for _, t := range c.Targets {
-					m := M{Case: c.Run.id, S: s.idx, R: t.R, N: c.Base + uint32(round) + 1}
+			rounds := c.N
+			if c.Script != nil {
+				rounds = len(c.Script)
+			}
+			one := func(round int, t target) {
+				m := M{Case: c.Run.id, S: s.idx, R: t.R, N: c.Base + uint32(round) + 1}
+				st := step{}
+				if c.Script != nil {
+					st = c.Script[round]
+					m.Pad, m.SleepUS = st.Pad, st.SleepUS
+				} else {
+					if c.ByName {
+						st.Addr = aName
+					}
 					if round == 0 && c.SleepFirstUS > 0 {
 						m.SleepUS = c.SleepFirstUS
 					} else if c.SleepProb > 0 && rng.Float64() < c.SleepProb {
@@ -228,17 +362,45 @@ func (s *sender) hooks() *actors.Hooks {
 					if c.PadProb > 0 && rng.Float64() < c.PadProb {
 						m.Pad = uint32(rng.Intn(c.PadMax))
 					}
-					m.Epoch = epoch.Load()
-					m.Tick = hk.Tick()
-					var to any = t.PID
-					if c.ByName {
-						to = gen.ProcessID{Name: t.Name, Node: t.PID.Node}
+				}
+				m.Kind = uint32(st.Kind) | uint32(st.Addr)<<4
+				var to any = t.PID
+				switch st.Addr {
+				case aName:
+					to = gen.ProcessID{Name: t.Name, Node: t.PID.Node}
+				case aAlias:
+					to = t.Alias
+				}
+				m.Epoch = epoch.Load()
+				m.Tick = hk.Tick()
+				var err error
+				switch st.Kind {
+				case kCall:
+					_, err = p.Call(to, m)
+				case kImportant:
+					err = p.SendImportant(to, m)
+				case kExit:
+					err = p.SendExit(t.PID, fmt.Errorf("c13x %d %d %d", m.Case, m.S, m.N))
+				default:
+					err = p.Send(to, m)
+				}
+				if err != nil {
+					c.Run.noteErr(fmt.Errorf("%s: %w", opName(m.Kind), err))
+				} else {
+					c.Run.sent.Add(1)
+				}
+			}
+			if c.TargetMajor {
+				for _, t := range c.Targets {
+					for round := 0; round < rounds; round++ {
+						one(round, t)
 					}
-					if err := p.Send(to, m); err != nil {
-						c.Run.noteErr(err)
-					} else {
-						c.Run.sent.Add(1)
-					}
+				}
+				return nil
+			}
+			for round := 0; round < rounds; round++ {
+				for _, t := range c.Targets {
+					one(round, t)
 				}
 				if c.GapEvery > 0 && (round+1)%c.GapEvery == 0 && c.GapUS > 0 {
 					time.Sleep(time.Duration(c.GapUS) * time.Microsecond)
